@@ -71,6 +71,21 @@ def validate(rep: dict, proj: Path | None, executed_ids: list[str] | None, tree_
                 for f in c.get("findings") or []:
                     if not f.get("id") or not isinstance(f.get("rule"), dict) or not f["rule"].get("id") or not f["rule"].get("name"):
                         errs.append(f"{cid}: {path}: finding without id / rule id / rule name: {f}")
+        if proj is not None:
+            for f in failed:
+                if not str(f).startswith(str(proj) + "/"):
+                    errs.append(f"{cid}: failedFiles names {f!r}, which is not a file of the project this run was given")
+            for u in r.get("unfixedFindings") or []:
+                up = str(u.get("path") or "")
+                if up.startswith("/") and not up.startswith(str(proj) + "/"):
+                    errs.append(f"{cid}: unfixed finding for {up!r}, which is not a file of this project")
+        if origin and origin != "pixee":
+            # identifiers of what was fixed: every source changeset of a tool-result driven codemod has a change that carries a finding
+            # (a fix that spans several lines may report further changes without one)
+            for cs in r["changeset"]:
+                chs = cs.get("changes") or []
+                if chs and Path(cs.get("path") or "").suffix == ".py" and not any(c.get("findings") for c in chs):
+                    errs.append(f"{cid}: {cs.get('path')}: no change of this changeset carries a finding although the codemod is driven by tool results")
         fset = {f.split("/")[-1] if proj is None else (str(Path(f).relative_to(proj)) if str(f).startswith(str(proj)) else f) for f in failed}
         both = fset & set(changed)
         if both:
